@@ -586,7 +586,14 @@ def records(run, thorough):
     from minecraft.networking.types import MutableRecord
     rng = run.rng('records')
 
+    import math as _math
+    the_nan = _math.nan
+
     def value(depth=0):
+        if depth == 0 and rng.random() < 0.08:
+            # a field that is not equal to itself: field-wise comparison says
+            # "unequal", also for one and the same object in both records
+            return the_nan
         k = rng.randrange(7 if depth < 2 else 5)
         return (rng.randrange(3), rng.choice(('a', 'b')), None,
                 rng.choice((1.0, 1, True)), (1, 2))[k] if k < 5 else \
@@ -623,14 +630,16 @@ def records(run, thorough):
                               'filled record raised', {'error': repr(e),
                                                        'record': repr(r1)})
                 continue
-            expect_eq = True
+            expect_eq = all(v1[s] == v1[s] for s in slots)
             run.count('record.copies')
             if type(r2) is not cls:
                 run.violation('record/copy-type', 'the copy of a record is of '
                               'another type', {'type': type(r2).__name__})
         elif mode == 0:
-            r2 = cls(**v1)
-            expect_eq = True
+            r2 = cls(**v1) if i % 5 else r1      # (or the very same record)
+            expect_eq = all(v1[s] == v1[s] for s in slots)
+            if not expect_eq:
+                run.count('record.pairs_with_a_nan_field')
         elif mode == 1:
             v2 = dict(v1)
             s = rng.choice(slots)
@@ -670,7 +679,8 @@ def records(run, thorough):
         if mode == 4:
             # ... and the copy is a record of its own
             setattr(r2, slots[0], ('changed in the copy', i))
-            if getattr(r1, slots[0]) != v1[slots[0]] or r1 == r2:
+            if (getattr(r1, slots[0]) != v1[slots[0]]
+                    and v1[slots[0]] == v1[slots[0]]) or r1 == r2:
                 run.violation('record/copy-shares-state', 'changing a field of '
                               'a copied record changed the original (or left '
                               'the two equal)', w)
@@ -908,6 +918,34 @@ def aliases(run):
        ('block_state_id',))
     rt('PositionAndLook', PositionAndLook(), 'position', v, ('x', 'y', 'z'))
     rt('PositionAndLook', PositionAndLook(), 'look', d, ('yaw', 'pitch'))
+    # the value given to an alias may be any iterable of the right length,
+    # also one that can be walked only once
+    for make, how in ((lambda t: iter(t), 'iterator'),
+                      (lambda t: (c for c in t), 'generator'),
+                      (lambda t: map(float, t), 'map object'),
+                      (lambda t: list(t), 'list')):
+        for K, label, alias, under, vals in (
+                (cb.PlayerPositionAndLookPacket, 'PPAL', 'position',
+                 ('x', 'y', 'z'), (1.5, -2.0, 3.25)),
+                (cb.SpawnObjectPacket, 'SpawnObject', 'velocity',
+                 ('velocity_x', 'velocity_y', 'velocity_z'), (4.0, 5.0, 6.0)),
+                (sb.PositionAndLookPacket, 'sbPositionAndLook', 'look',
+                 ('yaw', 'pitch'), (30.0, 60.0))):
+            pkt = K()
+            for u in under:
+                setattr(pkt, u, -1.0)
+            try:
+                setattr(pkt, alias, make(vals))
+                got = tuple(getattr(pkt, u) for u in under)
+            except Exception as e:
+                got = repr(e)
+            run.count('alias.one_shot_iterables')
+            if got != tuple(vals):
+                run.violation('alias/one-shot-iterable', 'a %s of the right '
+                              'length given to an attribute alias was not '
+                              'stored field by field' % how,
+                              {'class': label, 'alias': alias, 'given':
+                               list(vals), 'fields_afterwards': got})
     # block id / meta accessors
     for K in (cb.BlockChangePacket, cb.MultiBlockChangePacket.Record):
         o = K()
